@@ -28,7 +28,7 @@ GROUPS = [
       replace=['checksum32', 'little_endian_swap32/little_endian_swap32_id'], replace_extern=['fopen', 'fclose', 'fputs', 'fread/fread_whole', 'fseek', 'ftell', 'crc32'],
       defines={'VF_TAPE_MAX': 64}, unwind=2, unwindset={'__CPROVER_contracts_write_set_check_assigns_clause_inclusion.0': 20, 'memcmp.0': 16}, kind='bounded',
       bound='file length up to 64 bytes (the 32 KiB chunk loops are then not entered: unwinding assertions check that), every byte and length arbitrary'),
-    G('gds_timestamp', tu='src/library.cpp', roots=['gdstk::gds_timestamp'], entry='h_gds_timestamp', enforce='gds_timestamp',
+    G('gds_timestamp', tier='thorough', timeout=3600, tu='src/library.cpp', roots=['gdstk::gds_timestamp'], entry='h_gds_timestamp', enforce='gds_timestamp',
       replace=['gdsii_read_record', 'big_endian_swap16/big_endian_swap16_small'],
       replace_extern=['fopen', 'fclose', 'fputs'], defines={'VF_TAPE_MAX': 4096},
       bound='read-only mode; record loop closed by a loop contract; file length up to 4096 bytes'),
